@@ -329,7 +329,9 @@ func (s *state) walk(node parse.Node) error {
 		if err != nil {
 			return err
 		}
-		si.blocks = append(s.blocks, node.Blocks, tree.Blocks())
+		// the embedded template sees the blocks overridden in the embed body and
+		// its own, not the blocks of the embedding template
+		si.blocks = append(si.blocks, node.Blocks, tree.Blocks())
 		err = si.walk(tree.Root())
 		if err != nil {
 			return err
